@@ -10,10 +10,22 @@ import (
 // C17 (history-blob path): validateAndRepairHistoryEvents repairs every event of a batch and
 // reports "changed" iff some event needed repair (a batch reported unchanged is passed on as is).
 
-func c17Event(bad bool) *history122.HistoryEvent {
+func c17Event(bad bool) *history122.HistoryEvent { return c17EventK(bad, 0) }
+
+// invalid runs of 1, 2, 3 and 4 bytes (a 3-byte run repairs to a string of the same length)
+func c17EventK(bad bool, k int) *history122.HistoryEvent {
 	msg := "fine"
 	if bad {
-		msg = "bad\xffbytes"
+		switch k % 4 {
+		case 0:
+			msg = "bad\xffbytes"
+		case 1:
+			msg = "\xff\xfe"
+		case 2:
+			msg = "\xf0\x9f\x98"
+		case 3:
+			msg = "x\xfc\xfd\xfe\xffy"
+		}
 	}
 	return &history122.HistoryEvent{Attributes: &history122.HistoryEvent_ActivityTaskFailedEventAttributes{
 		ActivityTaskFailedEventAttributes: &history122.ActivityTaskFailedEventAttributes{Failure: &failure122.Failure{Message: msg}}}}
@@ -21,12 +33,13 @@ func c17Event(bad bool) *history122.HistoryEvent {
 
 func verifHarness_C17_blobEvents() {
 	n := verifChoose("events", 4) // 0..3 events
+	shape := verifChoose("bad-shape", 4)
 	var events []*history122.HistoryEvent
 	anyBad := false
 	for i := 0; i < n; i++ {
 		bad := verifChoose("event-has-invalid-utf8", 2) == 1
 		anyBad = anyBad || bad
-		events = append(events, c17Event(bad))
+		events = append(events, c17EventK(bad, shape+i))
 	}
 	changed, err := validateAndRepairHistoryEvents(events)
 	verifAssert(err == nil, "blob-events:no-error-on-repairable-input")
